@@ -20,6 +20,8 @@ import ast
 import os
 import re
 
+import c_pointer_walk as pw
+
 
 class Unsupported(Exception):
     pass
@@ -121,6 +123,28 @@ def _directives(repo):
                 overrides.append(f"{pkg}:{nxt.group(1) if nxt else '?'}:"
                                  f"{m.group(1)}={m.group(2)}")
     return d, overrides
+
+
+def _no_raw_pointers(repo):
+    """outside the `cdef extern` block no .pyx file declares a pointer,
+    takes an address or calls an allocator: every other array access goes
+    through a typed buffer or a Python object"""
+    for pkg in PKGS:
+        src = open(os.path.join(
+            repo, f"src/pyunicorn/{pkg}/_ext/numerics.pyx")).read()
+        src = re.sub(r"cdef extern from \"src_numerics\.c\":\n((?:(?:[ \t]+.*)"
+                     r"?\n)+)", "", src)
+        src = re.sub(r"#[^\n]*", "", src)
+        src = re.sub(r"<\s*\w+\s*\*\s*>\s*cnp\.PyArray_DATA\(\w+\)", "PTR", src)
+        if re.search(r"\b(malloc|calloc|realloc|free|memcpy|memset|alloca)\s*"
+                     r"\(", src):
+            return False
+        if re.search(r"\b(?:int|long|float|double|char|void|\w+_t)\s*\*+\s*"
+                     r"\w+", src):
+            return False
+        if re.search(r"&\s*\w+\s*\[", src):
+            return False
+    return True
 
 
 def _pointers(repo, td):
@@ -297,6 +321,131 @@ def _obligations(repo):
     return obs
 
 
+WALK_SPECS = [
+    # package, C function, extents (rows, columns), symbol arrays
+    ("timeseries", "_test_pearson_correlation_fast",
+     {"original_data": ("N", "n_time"), "surrogates": ("N", "n_time"),
+      "correlation": ("N", "N")}, {}),
+    ("timeseries", "_test_mutual_information_fast",
+     {"original_data": ("N", "n_time"), "surrogates": ("N", "n_time"),
+      "symbolic_original": ("N", "n_time"),
+      "symbolic_surrogates": ("N", "n_time"),
+      "hist_original": ("N", "n_bins"), "hist_surrogates": ("N", "n_bins"),
+      "hist2d": ("n_bins", "n_bins"), "mi": ("N", "N")},
+     {"symbolic_original": "n_bins", "symbolic_surrogates": "n_bins"}),
+    ("climate", "_mutual_information",
+     {"anomaly": ("N", "n_samples"), "symbolic": ("N", "n_samples"),
+      "hist": ("N", "n_bins"), "hist2d": ("n_bins", "n_bins"),
+      "mi": ("N", "N")}, {"symbolic": "n_bins"}),
+]
+
+
+def _show_offset(off, rows, cols):
+    """print an affine offset as  row * cols + col  when it has that shape"""
+    monos = dict(off)
+    for k, v in list(monos.items()):
+        if len(k) == 2 and cols in k and v == 1:
+            x = k[0] if k[1] == cols else k[1]
+            if k == (cols, cols):
+                x = cols
+            rest = {m: c for m, c in monos.items() if m != k}
+            if not rest:
+                return f"{x} * {cols} + 0"
+            if len(rest) == 1:
+                (m, c), = rest.items()
+                if len(m) == 1 and c == 1:
+                    return f"{x} * {cols} + {m[0]}"
+    return pw.ashow(off)
+
+
+def _walk_obligations(repo):
+    obs, facts = [], {"guarded": True, "rescaled": True}
+    for pkg, fname, extents, symarr in WALK_SPECS:
+        src = _strip_c(open(os.path.join(
+            repo, f"src/pyunicorn/{pkg}/_ext/src_numerics.c")).read())
+        funs = _c_functions(src)
+        if fname not in funs:
+            raise Unsupported("C function " + fname)
+        params, body = funs[fname]
+        try:
+            it = pw.analyse(body, params, {}, symarr, [])
+        except pw.Unsupported as e:
+            raise Unsupported(f"{fname}: {e}")
+        seen = set()
+        k = 0
+        for base, off, hyps, kind, syms in it.obligations:
+            if base not in extents:
+                raise Unsupported(f"{fname}: access to undeclared {base}")
+            rows, cols = extents[base]
+            text = _show_offset(off, rows, cols)
+            used = [h for h in hyps]
+            key = (base, text, tuple(used))
+            if key in seen:
+                continue
+            seen.add(key)
+            names = sorted(set(re.findall(r"[A-Za-z_]\w*", " ".join(
+                used + [text, rows, cols]))))
+            stmt = (f"forall {' '.join(names)} : Z, "
+                    + "".join(h + " -> " for h in used)
+                    + f"0 <= {text} < {rows} * {cols}")
+            obs.append((f"{fname.strip('_')}_{base}_{k}", stmt))
+            k += 1
+        # every write into a symbol array is the guarded assignment
+        if symarr:
+            good = pw.symbolising_writes(body)
+            if len(it.writes_sym) != 2 * len(good) or not good:
+                facts["guarded"] = False
+            n_resc = len(re.findall(
+                r"rescaled\s*=\s*scaling\s*\*\s*\(\s*\*\w+\s*-\s*range_min\s*"
+                r"\)\s*;", body))
+            n_any = len(re.findall(r"rescaled\s*=", body))
+            if n_resc != n_any or n_resc != len(good):
+                facts["rescaled"] = False
+    # wrappers: the extents above, the data range and the bin count
+    ts_pyx = open(os.path.join(
+        repo, "src/pyunicorn/timeseries/_ext/numerics.pyx")).read()
+    ts_py = open(os.path.join(
+        repo, "src/pyunicorn/timeseries/surrogates.py")).read()
+    cl_pyx = open(os.path.join(
+        repo, "src/pyunicorn/climate/_ext/numerics.pyx")).read()
+    cl_py = open(os.path.join(
+        repo, "src/pyunicorn/climate/mutual_info.py")).read()
+    flat = lambda t: re.sub(r"\s+", " ", t)
+    shapes = all(x in flat(ts_pyx) for x in (
+        "correlation = np.zeros( (N, N), dtype=FIELD)",
+        "symbolic_original = \\ np.empty((N, n_time), dtype=NODE)",
+        "symbolic_surrogates = \\ np.empty((N, n_time), dtype=NODE)",
+        "hist_original = \\ np.zeros((N, n_bins), dtype=NODE)",
+        "hist_surrogates = \\ np.zeros((N, n_bins), dtype=NODE)",
+        "hist2d = \\ np.zeros((n_bins, n_bins), dtype=NODE)",
+        "mi = np.zeros((N, N), dtype=FIELD)"))
+    shapes = shapes and all(x in flat(cl_pyx) for x in (
+        "symbolic = np.zeros( (N, n_samples), dtype=INT64TYPE)",
+        "hist = np.zeros( (N, n_bins), dtype=INT64TYPE)",
+        "hist2d = np.zeros( (n_bins, n_bins), dtype=INT64TYPE)",
+        "mi = np.zeros( (N, N), dtype=FIELD)"))
+    shapes = shapes and len(re.findall(
+        r"\(N, n_time\) = original_data\.shape\s*if surrogates\.shape != "
+        r"original_data\.shape:\s*raise ValueError", ts_py)) == 2
+    shapes = shapes and bool(re.search(
+        r"\(N, n_samples\) = anomaly\.shape", cl_py)) and bool(re.search(
+            r"mutual_information\(\s*to_cy\(anomaly, FIELD\), n_samples, N, "
+            r"n_bins, scaling, range_min\)", cl_py))
+    rng = ("range_min = np.min((original_data.min(), surrogates.min()))"
+           in flat(ts_pyx)
+           and "range_max = np.max((original_data.max(), surrogates.max()))"
+           in flat(ts_pyx)
+           and "scaling = 1. / (range_max - range_min)" in flat(ts_pyx)
+           and "range_min = float(anomaly.min())" in flat(cl_py)
+           and "range_max = float(anomaly.max())" in flat(cl_py)
+           and "scaling = 1./(range_max - range_min)" in flat(cl_py))
+    nb = (len(re.findall(r"if n_bins < 1:\s*raise ValueError", ts_py)) >= 1
+          and len(re.findall(r"if n_bins < 1:\s*raise ValueError", cl_py))
+          >= 1)
+    facts.update(shapes=shapes, range=rng, nbins=nb)
+    return obs, facts
+
+
 def _vcfb_guard(repo):
     src = open(os.path.join(
         repo, "src/pyunicorn/core/resistive_network.py")).read()
@@ -344,6 +493,9 @@ def generate(repo):
     d, overrides = _directives(repo)
     rows = _pointers(repo, td)
     obs = _obligations(repo)
+    wobs, wfacts = _walk_obligations(repo)
+    n_index = len(obs)
+    obs = obs + wobs
 
     def b(x):
         return "true" if x in (True, "True") else "false"
@@ -354,7 +506,9 @@ def generate(repo):
            f"Definition gen_boundscheck : bool := {b(d.get('boundscheck'))}.",
            f"Definition gen_wraparound : bool := {b(d.get('wraparound'))}.",
            "Definition gen_overrides : list string := ["
-           + "; ".join(f'"{o}"' for o in overrides) + "].", "",
+           + "; ".join(f'"{o}"' for o in overrides) + "].",
+           "Definition gen_no_raw_pointers_in_pyx : bool := "
+           + b(_no_raw_pointers(repo)) + ".", "",
            "(* (wrapper, array, bytes per element: buffer, cast, extern "
            "declaration, C definition; declared C-contiguous) *)",
            "Definition gen_pointers : list (string * (string * (nat * (nat * "
@@ -372,7 +526,10 @@ def generate(repo):
     out.append("Proof. unfold gen_all_accesses_in_range. "
                "repeat (apply conj; [kernel_access_tac|]). "
                "kernel_access_tac. Qed.")
-    out.append(f"Definition gen_access_count : nat := {len(obs)}%nat.")
+    out.append(f"Definition gen_access_count : nat := {n_index}%nat.")
+    out.append(f"Definition gen_walk_access_count : nat := {len(wobs)}%nat.")
+    for k in ("guarded", "rescaled", "shapes", "range", "nbins"):
+        out.append(f"Definition gen_walk_{k} : bool := {b(wfacts[k])}.")
     return "\n".join(out) + "\n"
 
 
